@@ -17,11 +17,13 @@
       and negative = unlimited), every pattern and type filter, every table with distinct positive
       ids — `keyscanner_complete`;
     * sets / hashes / sorted sets (no `order by`: rows come in member-byte order — for sorted
-      sets in (score, member) order, from the covering index —, cursor = max rowid): complete
+      sets in (score, member) order unless the pattern has a literal prefix —, cursor = max
+      rowid): complete
       IF AND ONLY IF the matching rows come in increasing rowid order
       (`scan_complete_iff_no_inversion`); ascending insertion gives that (`scan_monotone_complete`,
       `setscanner_monotone_complete`), descending insertion does not (`scan_skips_deviates`,
-      `setscanner_skips_deviates`, `zscanner_skips_deviates` — known finding D10);
+      `setscanner_skips_deviates`, `zscanner_skips_deviates`,
+      `zscanner_prefix_skips_deviates` — known finding D10);
     * for every row order and both rules: the iteration terminates with an empty page, cursor 0
       comes only with an empty page, nothing is returned that does not match
       (`scan_always_finishes`, `scan_cursor_zero_iff_empty`, `scan_sound`), and the max rule never
@@ -170,19 +172,24 @@ theorem hashscan_is_field_ordered_instance :
                         (fun x => pairVal (x.val.field, x.val.value)))]) db :=
   hashScan_eq_page
 
-/-- `Model.zScan`: rows sorted by (SCORE, ELEM) — the covering index `rzset_score_idx` —,
-max-rowid rule. -/
-theorem zscan_is_score_ordered_instance :
+/-- `Model.zScan`: the row order depends on the PATTERN (`Model.zScanByElem`): with a usable
+literal prefix SQLite's GLOB optimisation walks `rzset_pk_idx` — rows by ELEM (`b = true`) —,
+otherwise the covering index `rzset_score_idx` — rows by (SCORE, ELEM) (`b = false`); max-rowid
+rule in both cases.  A pattern whose literal prefix looks numeric is outside the model. -/
+theorem zscan_is_pattern_ordered_instance :
     ∀ (db : DB) (k : Bytes) (cursor : Int) (pat : Bytes) (count now : Int),
       zScan db k cursor pat count now =
-        match db.liveKeyT k TZSet now with
-        | none => .ok (.list [.int 0, .list []]) db
-        | some r =>
-          .ok (.list [.int (nextCursorMax (page (zRowsOf db r.id)
-                        (fun x => Glob.sqliteGlob pat x.elem) cursor (goCount count))),
-                      .list ((page (zRowsOf db r.id)
-                        (fun x => Glob.sqliteGlob pat x.elem) cursor (goCount count)).map
-                        (fun x => zItem x.val))]) db :=
+        match zScanByElem pat with
+        | none => .err .outOfDomain db
+        | some b =>
+          match db.liveKeyT k TZSet now with
+          | none => .ok (.list [.int 0, .list []]) db
+          | some r =>
+            .ok (.list [.int (nextCursorMax (page (zRowsOfBy b db r.id)
+                          (fun x => Glob.sqliteGlob pat x.elem) cursor (goCount count))),
+                        .list ((page (zRowsOfBy b db r.id)
+                          (fun x => Glob.sqliteGlob pat x.elem) cursor (goCount count)).map
+                          (fun x => zItem x.val))]) db :=
   zScan_eq_page
 
 /-- The iterator objects are the abstract iteration (Go page size 0 = 10, negative = unlimited). -/
@@ -202,10 +209,13 @@ theorem scanners_are_instances :
          | some r => (iterate .max (hashRowsOf db r.id) (fun x => Glob.sqliteGlob pat x.field)
              (goCount pageSize)).map (fun x => pairVal (x.val.field, x.val.value))) ∧
       zScanner db k pat pageSize now =
-        (match db.liveKeyT k TZSet now with
+        (match zScanByElem pat with
          | none => []
-         | some r => (iterate .max (zRowsOf db r.id) (fun x => Glob.sqliteGlob pat x.elem)
-             (goCount pageSize)).map (fun x => zItem x.val)) :=
+         | some b =>
+           match db.liveKeyT k TZSet now with
+           | none => []
+           | some r => (iterate .max (zRowsOfBy b db r.id) (fun x => Glob.sqliteGlob pat x.elem)
+               (goCount pageSize)).map (fun x => zItem x.val)) :=
   fun db k pat ty pageSize now =>
     ⟨keyScanner_eq db pat ty pageSize now, setScanner_eq db k pat pageSize now,
      hashScanner_eq db k pat pageSize now, zScanner_eq db k pat pageSize now⟩
@@ -293,15 +303,27 @@ theorem scan_skips_deviates :
   rw [h1] at hlen
   simp at hlen
 
-/-- SORTED SETS, on the Model: after `ZADD z 3 a; ZADD z 2 b; ZADD z 1 c` (rowids 1, 2, 3; the
-(score, elem) order is c, b, a) draining the sorted-set scanner with pattern `*` and page size 1
-yields `c` only, while the sorted set has three members.  Here the members WERE added in
-ascending byte order: for sorted sets it is the score order that has to agree with the rowids. -/
+/-- SORTED SETS, on the Model, pattern `*` (no literal prefix: rows by (score, elem)): after
+`ZADD z 3 a; ZADD z 2 b; ZADD z 1 c` (rowids 1, 2, 3; the (score, elem) order is c, b, a) draining
+the sorted-set scanner with page size 1 yields `c` only, while the sorted set has three members.
+The members WERE added in ascending byte order: here it is the score order that has to agree with
+the rowids. -/
 theorem zscanner_skips_deviates :
+    zScanByElem [42] = some false ∧
     zScanner d10ZDb [122] [42] 1 0 = [.list [.bytes [99], .score (.fin 1)]] ∧
     (zRows d10ZDb 1).map (·.elem) = [[99], [98], [97]] ∧
     (zRows d10ZDb 1).map (·.rowid) = [3, 2, 1] :=
-  ⟨zScanner_d10, by decide, by decide⟩
+  ⟨by decide, zScanner_d10, by decide, by decide⟩
+
+/-- SORTED SETS, pattern `m*` (literal prefix: rows by elem): after `ZADD z 1 mc; ZADD z 2 mb;
+ZADD z 3 ma` — scores ascending with the rowids, so pattern `*` would be complete — draining the
+scanner with page size 1 yields `ma` only. -/
+theorem zscanner_prefix_skips_deviates :
+    zScanByElem [109, 42] = some true ∧
+    zScanner d10ZDbPrefix [122] [109, 42] 1 0 = [.list [.bytes [109, 97], .score (.fin 3)]] ∧
+    (zRowsOfBy true d10ZDbPrefix 1).map (·.id) = [3, 2, 1] ∧
+    (zRowsOfBy false d10ZDbPrefix 1).map (·.id) = [1, 2, 3] :=
+  ⟨by decide, zScanner_d10_prefix, by decide, by decide⟩
 
 /-- The same on the Model: after `SADD s c; SADD s b; SADD s a`, draining the set scanner with
 pattern `*` and page size 1 yields `a` only, while the set has three members. -/
